@@ -1,6 +1,6 @@
 SPECIFICATION GSpec
 CONSTANTS
   MaxSteps = 5
-  Codes = {200, 404, 500}
+  Codes = {101, 103, 200, 404}
 INVARIANTS Emit CodeOK LastWins
 CHECK_DEADLOCK FALSE
